@@ -458,7 +458,12 @@ class ModulePrinter(ExpressionPrinter):
             for item in node.items:
                 delimiter.new_item()
 
-                if self.precedence(item.context_expr) != 0 and self.precedence(item.context_expr) <= self.precedence(
+                if len(node.items) == 1 and item.optional_vars is None and isinstance(item.context_expr, ast.Tuple) and len(item.context_expr.elts) > 0:
+                    # `with (a, b):` would be two context managers, a single tuple needs another pair of parentheses
+                    self.printer.delimiter('(')
+                    self.visit_withitem(item)
+                    self.printer.delimiter(')')
+                elif self.precedence(item.context_expr) != 0 and self.precedence(item.context_expr) <= self.precedence(
                     node
                 ):
                     self.printer.delimiter('(')
